@@ -2246,6 +2246,8 @@ class Interp:
                 # a dict handed in by the caller and changed in place: hand the final content back
                 for p_ in mutable_params:
                     final = finals[p_]
+                    if is_handle(final):
+                        final = s2.get(heap_key(final), final)   # (the parameter was moved to the heap inside the callee: what that object holds now)
                     if final is not None and final != argvals[p_]:
                         s3 = s3.set("outparam." + p_, final)
                 if kind == "return":
